@@ -14,7 +14,8 @@
 (*   t \in RunStart | RunEnd | NodeStart | NodeEnd | NodeError | CacheHit  *)
 (*        | RouteDecision | Shutdown                                       *)
 (* Trace record: [id, status (what the caller observed), events,           *)
-(*                graphnodes (<<node name, wrapped graph name>> pairs)]    *)
+(*                graphnodes (<<node name, wrapped graph name, "1" iff the  *)
+(*                node maps over its inputs>>)]                             *)
 (***************************************************************************)
 EXTENDS HGBase, Json, IOUtils, TLC, TLCExt
 
@@ -43,7 +44,10 @@ RunStart ==
      ELSE /\ Ev.parent \in open /\ UNCHANGED rootSpan
           /\ \/ /\ kindOf[Ev.parent] = "node"
                 /\ \E i \in 1..Len(Traces[tid].graphnodes) :      \* the node that launched it wraps this very graph
-                      Traces[tid].graphnodes[i][1] = nodeOf[Ev.parent] /\ Traces[tid].graphnodes[i][2] = Ev.graph
+                      /\ Traces[tid].graphnodes[i][1] = nodeOf[Ev.parent] /\ Traces[tid].graphnodes[i][2] = Ev.graph
+                      \* a MAPPING node launches one map run (its items are runs under that map run), any other
+                      \* graph node launches one plain run
+                      /\ (Traces[tid].graphnodes[i][3] = "1") = Ev.ismap
              \/ kindOf[Ev.parent] = "maprun" /\ ~Ev.ismap
   /\ open' = open \cup {Ev.span}
   /\ kindOf' = Put(kindOf, Ev.span, IF Ev.ismap THEN "maprun" ELSE "run")
